@@ -52,7 +52,7 @@ def run(ctx):
     required = ["strict_refuses", "strict_refuses_with_reason", "strict_decision_table", "strict_running", "lenient_accepts", "moved_keys_refused",
                 "cli_secrets_refused", "outbound_https_only", "lenient_follows_http", "tls_off_network_disabled", "refusals_independent",
                 "fact_default_strict", "fact_parse_public_url", "fact_reserved_lists", "fact_moved_keys", "fact_secret_flag_rule",
-                "fact_engine_conditions", "fact_http_client", "fact_engine_order", "fact_secret_flags", "fact_flags_resolved", "fact_redacted_keys"]
+                "fact_engine_conditions", "fact_http_client", "fact_iam_strictmode", "fact_redirect_check_reads_global", "early_client_strict", "iam_endpoints_strict", "iam_endpoint_witness", "fact_engine_order", "fact_secret_flags", "fact_flags_resolved", "fact_redacted_keys"]
     for r in required:
         if not any(t.endswith("Props." + r) for t in thms):
             ctx.oblige("thm-present:" + r, False, "theorem missing or its module does not build")
@@ -148,6 +148,15 @@ def run(ctx):
                 violation("cli-flag-refused:" + op["flag"], f"--{op['flag']}={op.get('value')} not accepted: {line}", opl)
             if not secret and re.search(r"token|password|secret|credential|connection|clientsecret|apikey", op["flag"]):
                 odd_accepted.append(op["flag"])
+        elif kind == "flags":
+            names = [a.split("=", 1)[0] for a in op.get("args", [])]
+            secret = [n for n in names if n.endswith("token") or n.endswith("password")]
+            outcomes["flags " + line.split()[1] + (" (with secret)" if secret else "")] += 1
+            distinct.add(("flags", tuple(op.get("args", []))))
+            if secret and line != "flags refuse:cli-secret":
+                violation("cli-secret-accepted:combined", f"secret flag {secret} accepted when combined with other flags {names}: {line}", opl)
+            if not secret and line != "flags ok":
+                violation("cli-flags-refused", f"flags {names} not accepted: {line}", opl)
         elif kind == "load":
             outcomes[line] += 1
             distinct.add(("load", op.get("legacy"), op.get("legacyenv"), op.get("cli"), strict))
@@ -168,7 +177,15 @@ def run(ctx):
             if strict:
                 if (ins or malformed) and not line.startswith("sys refuse"):
                     violation("strict-accepted:" + (ins[0] if ins else "malformed"), f"strict node started with insecure settings {ins}: {line}", opl)
-                if not ins and not malformed and line != "sys ok dummy=absent remotectx=refused clientstrict=true":
+                if line.startswith("sys ok"):
+                    pr = dict(kv.split("=", 1) for kv in line.split()[2:])
+                    if pr.get("earlyclient") != "refused":
+                        violation("outbound-non-https:client-built-before-configure", "started strict node: a client built before the HTTP engine was configured followed an https -> http redirect", opl)
+                    if pr.get("iamhttp") == "sent":
+                        violation("outbound-non-https:iam", "started strict node: the IAM client sent a request to a plain-HTTP endpoint", opl)
+                    elif pr.get("iamhttp") != "refused-endpoint" or pr.get("iamip") != "refused-endpoint":
+                        violation("strict-endpoint-check-disabled:iam", f"started strict node: the IAM client's endpoint check runs non-strict (http endpoint: {pr.get('iamhttp')}, https://127.0.0.1 endpoint: {pr.get('iamip')})", opl)
+                if not ins and not malformed and not line.startswith("sys ok dummy=absent remotectx=refused clientstrict=true "):
                     violation("strict-secure-config:" + line.split()[1][:40], f"secure strict configuration did not start as expected: {line}", opl)
                 if len(ins) == 1 and not malformed and line.startswith("sys refuse"):
                     want = {"url-not-https": "url:scheme", "url-ip": "url:ip", "url-reserved": "url:reserved", "tls-off": "tls-off", "crypto-implicit": "crypto-implicit",
@@ -176,7 +193,7 @@ def run(ctx):
                     if not line.endswith(":" + want):
                         violation("strict-refused-for-other-reason:" + ins[0], f"only insecure setting {ins[0]} but the node says {line}", opl)
             elif not malformed:
-                want = f"sys ok dummy={'registered' if op.get('dummy') else 'absent'} remotectx=attempted clientstrict=false"
+                want = f"sys ok dummy={'registered' if op.get('dummy') else 'absent'} remotectx=attempted clientstrict=false earlyclient=followed iamhttp=sent iamip=sent"
                 if line != want:
                     violation("lenient-refused:" + (line.split()[1][:40] if line.startswith("sys refuse") else "probe"), f"lenient node with settings {ins}: {line} (expected {want})", opl)
         elif kind == "do":
@@ -185,9 +202,9 @@ def run(ctx):
                 continue
             reqs = [r for r in m.group(1).split(",") if r]
             outcomes["do " + ("strict " if strict else "lenient ") + m.group(2).split(":")[0] + (":" + m.group(2).split(":")[1] if m.group(2).startswith("refuse") else "")] += 1
-            distinct.add(("do", op.get("ctor"), strict, op.get("first"), tuple(op.get("locs") or [])))
+            distinct.add(("do", op.get("ctor"), strict, op.get("late", False), op.get("first"), tuple(op.get("locs") or [])))
             if strict and any(not r.startswith("https://") for r in reqs):
-                violation("outbound-non-https:" + op.get("ctor", ""), f"strict {op.get('ctor')} client made requests {reqs}", opl)
+                violation("outbound-non-https:" + op.get("ctor", "") + (":built-before-strict" if op.get("late") else ""), f"strict {op.get('ctor')} client made requests {reqs}", opl)
             if not strict and m.group(2).startswith("refuse:") and "too-many" not in m.group(2):
                 violation("lenient-refused:outbound", f"lenient {op.get('ctor')} client refused: {line}", opl)
     for sig, (_, what, opline) in sorted(best.items()):
@@ -197,7 +214,7 @@ def run(ctx):
     # the regenerated flag list is the real one
     if not ctx.replay:
         ff = facts.get("registeredFlags", [])
-        ctx.oblige("facts:registered-flags=serverConfigFlags()", sorted(ff) == sorted(flag_names),
+        ctx.oblige("facts:registered-flags=serverConfigFlags()", sorted(ff) == sorted(set(flag_names)),
                    f"only in facts: {sorted(set(ff) - set(flag_names))[:6]}; only in the binary: {sorted(set(flag_names) - set(ff))[:6]}")
         ctx.oblige("exhaustive:option-product", len(product_rows) == PRODUCT_SIZE, f"{len(product_rows)} of {PRODUCT_SIZE} rows of the option product were run")
 
